@@ -6,16 +6,15 @@
 
 LIB = "pkg/station/lib"
 
-CHECKS = {
-    "C08": {
-        "title": "Registrations expire on schedule",
-        "level": "exploration",
-        "rule": "model-based testing of the registry: histories of track/validate/ingest/connect/advance/sweep are applied to the real RegistrationManager and to a reference lifetime model, compared after every step (tracked set, time-out record count, lookups). Exhaustive over short histories, rapid-generated for long ones. Non-trivial: a sweep that removes one entry while keeping another, or one secret registered under several transports on one phantom. Distinct = distinct history.",
-        "assumptions": ["time is advanced by shifting the recorded registration times backwards (the code only uses time.Since(registrationTime))",
-                        "entries whose expiry falls within the real time elapsed during a case are treated as ambiguous and not asserted"],
-        "units": [
-            {"pkg": LIB, "run": "^TestVerif_C08_", "subs": ["exhaustive", "random"],
-             "rapid_checks": (400, 30000), "shards": (4, 16), "timeout": (300, 3000)},
-        ],
-    },
-}
+CHECKS = {}
+
+
+# Further properties live in checks.d/<ID>.json (same structure, one property per file).
+import glob as _glob, json as _json, os as _os
+for _f in sorted(_glob.glob(_os.path.join(_os.path.dirname(_os.path.abspath(__file__)), "checks.d", "*.json"))):
+    _d = _json.load(open(_f))
+    for _k in ("rapid_checks", "shards", "timeout"):
+        for _u in _d["units"]:
+            if isinstance(_u.get(_k), list):
+                _u[_k] = tuple(_u[_k])
+    CHECKS[_d["id"]] = _d
